@@ -8,6 +8,7 @@ SUPPORT_KINDS = {"inv_init", "inv_pres", "call_requires", "count_mask_sorted", "
 
 PROPS = {
     "C17": dict(
+        bounded=dict(module="c17_grid.py"),
         functions=["growing_degree_day", "water_stress", "temperature_stress", "cc_development", "cc_required_time",
                    "cc_growth_inversion", "aeration_stress", "reset_initial_conditions#body"],
         level="proof",
@@ -19,8 +20,9 @@ PROPS = {
     "C01": dict(lemmas=True, bounded=dict(module="water_monitors.py", args=["--property", "C01"]), functions=["pre_irrigation", "drainage", "infiltration", "capillary_rise", "groundwater_inflow", "soil_evaporation", "transpiration", "solution_single_time_step", "update_time", "reset_initial_conditions#body"], level="proof",
                 explanation="per-process mass contracts: loop invariants over the spec sum wsum (storage), closed with the lemma library; the daily step composes them into the "
                             "balance of the reported row; between days update_time carries water content and ponding unchanged unless a season starts", trusted_base=[]),
-    "C02": dict(bounded=dict(module="water_monitors.py", args=["--property", "C02"]), functions=["rainfall_partition", "infiltration", "solution_single_time_step"], level="proof",
-                explanation="partition identities and runoff bounds as postconditions of rainfall_partition and infiltration", trusted_base=[]),
+    "C02": dict(bounded=dict(module="water_monitors.py", args=["--property", "C02"]), functions=["rainfall_partition", "infiltration", "soil_evaporation", "transpiration", "solution_single_time_step"], level="proof",
+                explanation="partition identities and runoff bounds as postconditions of rainfall_partition and infiltration; the ponded depth stays non-negative through "
+                            "evaporation and transpiration (negative infiltration only releases ponded water); composition on the reported row", trusted_base=[]),
     "C03": dict(lemmas=True, bounded=[dict(module="water_monitors.py", args=["--property", "C03"]), dict(module="soil_assumptions.py")], functions=["pre_irrigation", "drainage", "infiltration", "capillary_rise", "groundwater_inflow", "root_zone_water", "soil_evaporation", "evap_layer_water_content", "transpiration", "rainfall_partition", "solution_single_time_step"], level="proof",
                 explanation="water_inv as inductive invariant of each process", trusted_base=[]),
     "C04": dict(bounded=dict(module="water_monitors.py", args=["--property", "C04"]), functions=["drainage", "irrigation", "infiltration", "capillary_rise", "groundwater_inflow", "pre_irrigation", "aeration_stress", "soil_evaporation", "transpiration", "canopy_cover", "root_zone_water", "solution_single_time_step"], level="proof",
@@ -34,7 +36,7 @@ PROPS = {
                 explanation="E1: degree-day range and accumulation, canopy envelope, biomass monotone, harvest index <= reference and adjusted index <= reference x allowed increase, "
                             "reference harvest index non-decreasing in adjusted time (two-copy obligation), zeros out of season; root-depth envelope and the day-to-day chaining of the "
                             "stored harvest index are served by the BOUNDED monitors"),
-    "C06": dict(functions=["biomass_accumulation", "HIref_current_day", "transpiration", "canopy_cover", "solution_single_time_step"], level="proof",
+    "C06": dict(functions=["biomass_accumulation", "HIref_current_day", "transpiration", "canopy_cover", "irrigation", "solution_single_time_step"], level="proof",
                 bounded=dict(module="water_monitors.py", args=["--property", "C06"]),
                 explanation="per-step yield algebra and seasonal irrigation accumulation as postconditions of the daily step over the callee contracts; the summary row is written "
                             "exactly when the harvest flag is raised (at index season_counter, once per season) and repeats that day's yields, step, end date and the seasonal "
@@ -45,7 +47,9 @@ PROPS = {
                             "parameter arrays (soil profile, weather, management) are not writable; E2 store scan (with numpy view/copy tracking) over solution/ and timestep/; "
                             "BOUNDED: content hash of every parameter component after every step of real runs (catches aliasing through views that the frame proofs do not model)"),
     "C09": dict(functions=["AquaCropModel.run_model", "AquaCropModel._perform_timestep#body", "check_model_is_finished", "update_time"], level="proof", bounded=dict(module="c09_stepwise.py"),
-                explanation="run_model's two loops verified over an ABSTRACT step contract (ghost step counter, trajectory predicate fin): every call advances the "
+                store_scan=lambda area, kind: kind in ("global", "default"),
+                explanation="(E2: no function keeps state in module-level objects - state held off the model object would make a stepped run depend on whatever runs between the calls) "
+                            "run_model's two loops verified over an ABSTRACT step contract (ghost step counter, trajectory predicate fin): every call advances the "
                             "trajectory by min(k, steps-to-termination) and reports finished exactly at termination, so every partition of a run ends in the same "
                             "state T^N(s0); bitwise equality of tables across partitions is additionally monitored by the BOUNDED stand-in",
                 trusted_base=["AquaCropModel._perform_timestep: abstract deterministic step (assumed; frame/determinism shared with C10)"]),
@@ -55,8 +59,8 @@ PROPS = {
                 explanation="E1: the safety obligations (definite assignment, non-zero divisors, positive log arguments, non-negative power bases, index bounds, asserts, "
                             "unreachable raises, loop variants) of every function under contract, under the documented flag values; "
                             "BOUNDED: pairwise-covering enumeration of the configuration catalogue for the initialisers and the combination space"),
-    "C18": dict(functions=[], level="other", bounded=[dict(module="c18_soil.py"), dict(module="deepening.py")],
-                explanation="BOUNDED: wf_profile and initial-water-content clauses evaluated on real initialised models; profile deepening terminates, ends below the "
+    "C18": dict(functions=[], level="exploration", bounded=[dict(module="c18_soil.py"), dict(module="deepening.py")],
+                explanation="BOUNDED exploration (the soil and initial-water-content builders are pandas code outside the verifier's reach; no contract can be discharged on them): wf_profile and initial-water-content clauses evaluated on real initialised models; profile deepening terminates, ends below the "
                             "maximum rooting depth and keeps layer properties on a lattice of compartment lists x crops"),
     "C10": dict(functions=[], level="other", bounded=dict(module="c10_determinism.py"),
                 store_scan=lambda area, kind: kind in ("global", "default"),
@@ -70,8 +74,11 @@ PROPS = {
     "C14": dict(functions=["AquaCropModel._perform_timestep#body", "update_time", "check_model_is_finished"], level="other", bounded=dict(module="c14_lookahead.py"),
                 explanation="E1: the model's time step reads no weather record other than today's row (reads obligation on _perform_timestep) and writes only today's table rows; "
                             "BOUNDED: cut-day perturbations, records outside the window, end-date extension compared bitwise"),
-    "C15": dict(functions=[], level="other", bounded=dict(module="c15_weather_binding.py"), explanation="BOUNDED"),
-    "C08": dict(functions=["reset_initial_conditions#body", "update_time", "pre_irrigation"], level="other", bounded=dict(module="c08_seasons.py"),
+    "C15": dict(functions=["AquaCropModel._perform_timestep#body"], level="exploration", bounded=dict(module="c15_weather_binding.py"),
+                explanation="BOUNDED exploration: the binding of weather records to simulated days (by date) and of variables to columns (by name) is pandas code in "
+                            "AquaCropModel._initialize, outside the verifier's reach; it is explored over column permutations, extra columns, re-indexed tables and extra "
+                            "leading/trailing rows on real runs, bitwise. E1 contributes only that the daily step reads exactly the row whose index is the step counter."),
+    "C08": dict(functions=["reset_initial_conditions#body", "update_time", "pre_irrigation", "soil_evaporation"], level="other", call_order_of=["solution_single_time_step"], bounded=dict(module="c08_seasons.py"),
                 explanation="E1: the real body of reset_initial_conditions resets every season-state field to the value a fresh run starts from (counters, flags, factors, "
                             "crop-dependent values, aeration counters, potential fluxes), restores the configured water content from a PRIVATE copy (th is not thini) and the "
                             "initial ponding; update_time calls it exactly when a season starts; BOUNDED: season k of a multi-season run vs a fresh single-season run, bitwise"),
@@ -94,6 +101,8 @@ def registered(prop_id, ob):
         return True
     if kind in SAFETY_KINDS:
         return bool(spec.get("safety")) or prop_id in ("C16",)
+    if kind == "call_order":
+        return True
     if kind == "frame":
         return prop_id in ("C12",) or bool(spec.get("frame"))
     return prop_id in tags
